@@ -195,6 +195,8 @@ def names_of(p):
         return [p[1], p[2]]
     if t in ("cons2", "snoc2"):
         return [p[1], p[2], p[3]]
+    if t == "annsplatseq":
+        return ["n0", "r"]
     if t == "plus2":
         return [p[1]]
     if t in ("plus", "times", "neg"):
@@ -240,6 +242,9 @@ def src_of(p, top=False):
     if t == "snoc":
         return "(%s +. %s)" % (p[1], p[2])
     # chains of one pattern operator group like the operator does in expressions: .+ to the right, +. and + to the left
+    if t == "annsplatseq":     # a splat target with an annotation of its own: the annotation is about the list it collects
+        inner = "n0: %s, ...r: %s" % (p[1], p[2])
+        return inner if top else "(%s)" % inner
     if t == "cons2":
         return "(%s .+ %s .+ %s)" % (p[1], p[2], p[3])
     if t == "snoc2":
@@ -276,7 +281,7 @@ NA = "not-asserted"
 
 
 def has_ann(p):
-    if p[0] in ("ann", "annparts"):
+    if p[0] in ("ann", "annparts", "annsplatseq"):
         return True
     if p[0] == "seq":
         return any(has_ann(x) for x in p[1])
@@ -328,6 +333,19 @@ def match(p, v):
                 return r
             out.update(r)
         return out
+    if t == "annsplatseq":
+        if ckind(v) == "d" and len(v[1]) > 1:
+            return NA
+        es = elements(v)
+        if es is None or len(es) < 1:
+            return FAIL
+        rest = ["l", es[1:]]
+        ok1, ok2 = is_type(es[0], p[1]), is_type(rest, p[2])
+        if ok1 is None or ok2 is None:
+            return NA
+        if not (ok1 and ok2):
+            return FAIL
+        return {"n0": es[0], "r": rest}
     if t == "annparts":
         r = match(p[1], v)
         if r in (FAIL, NA):
@@ -535,7 +553,9 @@ def pattern_pool(tier):
     pats += [("struct", "P", [N(0), N(1)]), ("struct", "P", [N(0), ("lit", cI(2), "2")]), ("struct", "P", [N(0)]), ("struct", "Q", [N(0)]),
              ("struct", "P", [N(0), ("seq", [N(1), N(2)], "comma")]), ("struct", "P", [("_",), ("_",)])]
     # operator patterns
-    pats += [("cons2", "h", "n0", "t"), ("snoc2", "t", "n0", "h"), ("plus2", "n0", 1, 2), ("plus2", "n0", 5, 1),
+    pats += [("annsplatseq", "int", "list"), ("annsplatseq", "int", "int"), ("annsplatseq", "anything", "str"), ("annsplatseq", "int", "dict"),
+             ("annsplatseq", "anything", "anything"), ("annsplatseq", "str", "list"),
+             ("cons2", "h", "n0", "t"), ("snoc2", "t", "n0", "h"), ("plus2", "n0", 1, 2), ("plus2", "n0", 5, 1),
              ("cons", "h", "t"), ("snoc", "t", "h"), ("plus", "n0", 1), ("plusl", 1, "n0"), ("plus", "n0", 5), ("times", "n0", 2), ("times", "n0", 3), ("times", "n0", 0),
              ("neg", "n0"), ("frac", "n0", "n1"), ("cmphole", 1, 9), ("cmphole", 0, 2), ("cmp2", "n0", "n1"),
              ("neglit", 1), ("neglit", 5), ("fraclit", "n0", 2), ("fraclit", "n0", 1), ("fraclit", "n0", 4), ("conslit", 1, "t"), ("conslit", 5, "t"),
